@@ -7,7 +7,7 @@ def ob(id, entry, mode, cases, expect, bounds, tus=TUS_BOX, **kw):
     d.update(kw); return d
 OBLIGATIONS = [
     ob('C07.box', 'h_c07_box', 'real', [(0,), (1,)], ['a point within the closed box is inside', 'end'], 'BoundingBox<2>, all finite corners/points/tolerances >= 0; Cartesian and spherical wrapper', native=True),
-    ob('C07.boxfp', 'h_c07_box_fp', 'fp', [()], ['a point within the closed box is inside (bit precise, default tolerance)', 'end'], 'bit-precise doubles, default tolerance (epsilon), finite corners', time_cap=250),
+    ob('C07.boxfp', 'h_c07_box_fp', 'fp', [()], ['a point within the closed box is inside (bit precise, default tolerance)', 'end'], 'bit-precise doubles, default tolerance (epsilon), finite corners', time_cap=900, qtimeout_ms=400000),
     ob('C07.alias', 'h_c07_alias', 'fpu', [()], ['spherical box test is the disjunction over the two longitude aliases', 'end'], 'all doubles (products uninterpreted)'),
     ob('C07.extend', 'h_c07_extend', 'real', [()], ['extend moves both corners outwards by the amount', 'end'], 'all finite corners and amounts', native=True),
 ] + C07b.bounds_obs('C07.bounds', C06.TUS[1:]) + C06.CUT_OBS + [dict(o, id=o['id'].replace('C12.sections', 'C07.bounds.sections')) for o in __import__('C12').OBLIGATIONS if o['id'].startswith('C12.sections')]
